@@ -476,6 +476,12 @@ pub fn realise(raw: &RawFacts, cfg: &GenCfg) -> Facts {
                 3 => 2,
                 4 => 117,
                 5 => 119,
+                // an alias of an id assigned earlier under a power-of-two or decimal radix (id + 2^16, + 10^6, ...)
+                6 if !ids.is_empty() => {
+                    let base = ids[(idr / 8) as usize % ids.len()];
+                    let step = [1u32 << 16, 1_000_000, 1 << 20, 1 << 8, 10_000, 1 << 23][(idr / 64) as usize % 6];
+                    base.wrapping_add(step) % ID_SPACE
+                }
                 _ => idr % ID_SPACE,
             },
         };
